@@ -59,11 +59,11 @@ func Restore(r io.Reader) (int, *T, error) {
 	}
 	total += n
 	t := &T{N: uint64(buf[0]), Items: map[uint64]bool{}}
-	for {
+	for i := uint64(0); i < t.N; i++ {
 		n, err := io.ReadFull(r, buf[:1])
 		if err != nil {
 			if err == io.EOF {
-				break
+				err = io.ErrUnexpectedEOF
 			}
 			return total, nil, err
 		}
